@@ -9,7 +9,8 @@ keeping a local alive across the re-entrant call, compiled under every (version,
   self      : the same with A calling itself (A(n) = 1 if n == 0 else A(n-1) + (3n+1))
   settings  : versions 6..10 x OptimizeOptions(scratch_slots, frame_pointers) in {None, True, False}^2 (explicit frame pointers only from v8)
 
-Oracle: the two recurrences evaluated in Python; every setting must log exactly A(depth) - hence all settings agree.
+Oracle: the two recurrences evaluated in Python; every setting must log exactly A(depth) - hence all settings agree; and the emitted
+TEAL of every setting must keep stack / type discipline (spec/tealcheck).
 """
 import itertools
 
@@ -115,7 +116,7 @@ def case(job):
     use_repo()
     import pyteal as pt
     from pyteal import abi
-    from spec import avm
+    from spec import avm, tealcheck
     out = {"job": list(job), "problems": [], "ran": 0}
     own = (pt.TealInputError, pt.TealCompileError, pt.TealTypeError, pt.TealInternalError)
     # one expression object per job (a recursive ABI routine that stores its own result makes PyTeal re-evaluate the body until Python's
@@ -135,6 +136,9 @@ def case(job):
             except Exception as e:
                 out["problems"].append({"version": version, "setting": [ss, fp], "what": f"exception {type(e).__name__}: {str(e)[:160]}"})
                 continue
+            pr = tealcheck.validate(teal, version, "Application")
+            if pr:
+                out["problems"].append({"version": version, "setting": [ss, fp], "what": f"illegal / ill-disciplined TEAL: {pr[:2]}", "teal": teal})
             for depth in DEPTHS:
                 want = ref_A(depth, self_rec)
                 try:
